@@ -173,7 +173,13 @@ def random_funcs(rnd, n=4):
         for _ in range(rnd.randint(1, 2)):
             callee = rnd.choice(names)
             form = rnd.randint(0, 3)
-            c = call(callee, down, Bin('%', V(acc), I(5)))
+            argx = Bin('%', V(acc), I(5))
+            if rnd.random() < 0.4:
+                # an invocation inside an argument of an invocation with several arguments (the argument lists are
+                # shuffled: the nested one is the first, a middle or the last argument)
+                nested = call(rnd.choice(names), down, argx)
+                argx = nested if rnd.random() < 0.5 else Bin('%', Bin('+', nested, I(1)), I(5))
+            c = call(callee, down, argx)
             if form == 0:
                 inner.append(Assign(V(acc), Bin('+', V(acc), c)))
             elif form == 1:
@@ -218,8 +224,15 @@ def random_scripts(rnd, env):
         items = list(kw.items())
         rnd.shuffle(items)
         return fcall(g, **dict(items))
+    def nested(g, d):
+        # the integer argument x of the outer call is itself a call
+        c = call(g, d)
+        for p in c['ps']:
+            if p['n'] == 'x':
+                p['e'] = call(rnd.choice(gs), max(d - 1, 0))
+        return c
     for g in gs:
-        out.append([Assign(V('x'), I(7)), Assign(V('acc'), I(8)), Assign(V('r'), call(g, rnd.randint(0, 3))),
+        out.append([Assign(V('x'), I(7)), Assign(V('acc'), I(8)), Assign(V('r'), (nested if rnd.random() < 0.5 else call)(g, rnd.randint(0, 3))),
                     Ret(Bin('+', Bin('*', V('r'), I(100)), Bin('+', V('x'), V('acc'))))])
     g1, g2 = rnd.choice(gs), rnd.choice(gs)
     out.append([Create('a1', 'A'), Assign(Field(V('a1'), 'N'), I(rnd.randint(0, 9))), Create('a2', 'A'), Assign(Field(V('a2'), 'N'), I(rnd.randint(0, 30))),
